@@ -208,6 +208,35 @@ let rec sexp_of_expr e =
 let sexp_of_grammar g =
   "(g " ^ String.concat " " (List.map (function RBody b -> "(B " ^ sexp_of_expr b ^ ")" | RAct k -> "(A " ^ string_of_int (int_of_nat k) ^ ")" | RNil -> "(N)") g) ^ ")"
 
+(* elab <id> <surface sexp> : the tree the builder makes for a surface expression *)
+let schar_of = function
+  | L [Atom "c"; Atom v] -> SC (z_of_int (ios v))
+  | L (Atom "hex" :: ds) -> SHex (List.map (fun d -> z_of_int (ios (atom d))) ds)
+  | L (Atom "oct" :: ds) -> SOct (List.map (fun d -> z_of_int (ios (atom d))) ds)
+  | _ -> failwith "schar"
+let citem_of = function
+  | L [Atom "ci"; c] -> CChar (schar_of c)
+  | L [Atom "cr"; a; b] -> CRange (schar_of a, schar_of b)
+  | _ -> failwith "citem"
+let rec sx_of = function
+  | L [Atom "dot"] -> XDot | L [Atom "name"; Atom n] -> XName (nat_of_int (ios n))
+  | L [Atom "act"; Atom k] -> XAct (nat_of_int (ios k)) | L [Atom "pred"; Atom k] -> XPred (nat_of_int (ios k))
+  | L [Atom "state"; Atom k] -> XState (nat_of_int (ios k)) | L [Atom "nil"] -> XNil
+  | L (Atom "lit" :: cs) -> XLit (List.map schar_of cs) | L (Atom "ilit" :: cs) -> XILit (List.map schar_of cs)
+  | L (Atom "class" :: Atom neg :: Atom ins :: items) -> XClass (neg = "1", ins = "1", List.map citem_of items)
+  | L (Atom "seq" :: l) -> XSeq (List.map sx_of l)
+  | L (Atom "alt" :: Atom t :: l) -> XAlt (List.map sx_of l, t = "1")
+  | L [Atom "and"; e] -> XAnd (sx_of e) | L [Atom "not"; e] -> XNot (sx_of e) | L [Atom "q"; e] -> XQuery (sx_of e)
+  | L [Atom "star"; e] -> XStar (sx_of e) | L [Atom "plus"; e] -> XPlus (sx_of e) | L [Atom "push"; e] -> XPush (sx_of e)
+  | L [Atom "group"; e] -> XGroup (sx_of e)
+  | _ -> failwith "sx"
+let do_elab rest =
+  let i = String.index rest ' ' in
+  let cid = String.sub rest 0 i in
+  let t = sx_of (parse_sexp (String.sub rest (i + 1) (String.length rest - i - 1))) in
+  print_endline (Printf.sprintf "elab %s :: ok=%d %s" cid (if x_sx_ok t then 1 else 0)
+                   (match x_elab t with Some e -> sexp_of_expr e | None -> "NONE"))
+
 (* opt <gid> : the model's -switch pass applied to a stored grammar *)
 let do_opt rest =
   let gid = String.trim rest in
@@ -265,6 +294,7 @@ let () =
            | "cli" -> do_cli rest
            | "diag" -> do_diag rest
            | "opt" -> do_opt rest
+           | "elab" -> do_elab rest
            | _ -> print_endline ("ERR unknown command " ^ cmd))
         with
         | Stack_overflow -> print_endline ("ERR stack overflow: " ^ (String.sub line 0 (min 60 (String.length line))))
